@@ -1589,6 +1589,90 @@ func (w *world) put(ci int, ws []write) {
 
 // ---------------------------------------------------------------------------------------- one database
 
+// putWithBystanders: one PUT whose entries alternate between "write this value" and "only subscribe" ({"aid","iid","ev":true},
+// no value): a controller that writes one characteristic and subscribes to others in the same request.  The entries
+// without a value name writable characteristics; the application's value of those must be what it was, and their
+// remote-update callbacks silent.  The written ones are checked as always by the reads that follow.
+func (w *world) putWithBystanders(ci int, rnd *rand.Rand, writable []*cell, k int) {
+	perm := rnd.Perm(len(writable))
+	var b bytes.Buffer
+	b.WriteString(`{"characteristics":[`)
+	type by struct {
+		c      *cell
+		before interface{}
+	}
+	var bys []by
+	var written []*cell
+	var vals []interface{}
+	n := 0
+	for _, i := range perm {
+		c := writable[i]
+		if n >= 6 {
+			break
+		}
+		if n > 0 {
+			b.WriteByte(',')
+		}
+		if n%2 == 0 {
+			v := c.gen(rnd, k+rnd.Intn(2)*5, false)
+			fmt.Fprintf(&b, `{"aid":%d,"iid":%d,"value":%s}`, c.aid(), c.iid(), encodeValue(v, rnd))
+			written, vals = append(written, c), append(vals, v)
+		} else {
+			if !c.readable {
+				continue
+			}
+			v, p := c.appGet()
+			if p != "" {
+				continue
+			}
+			c.takeCallbacks()
+			fmt.Fprintf(&b, `{"aid":%d,"iid":%d,"ev":true}`, c.aid(), c.iid())
+			bys = append(bys, by{c, v})
+		}
+		n++
+	}
+	b.WriteString(`]}`)
+	body := b.Bytes()
+	if bytes.Contains(body, []byte(",,")) || bytes.Contains(body, []byte("[,")) || bytes.HasSuffix(body, []byte(",]}")) {
+		return // (an entry was skipped after the comma was written)
+	}
+	m, _ := w.do(ci, "PUT", "/characteristics", body)
+	run.Count("put_requests_mixing_values_and_subscriptions", 1)
+	for i, c := range written {
+		// resynchronise the model of the written ones from the application (their fidelity is judged by put / get)
+		if c.readable {
+			if v, p := c.appGet(); p == "" {
+				if m != nil && m.Status/100 == 2 && !sameValue(v, vals[i]) && m.Status == 204 {
+					run.Violation("put:getter-differs:"+c.format, fmt.Sprintf("%s (%s): the controller wrote %s in a request that also subscribes to other characteristics (answered HTTP 204), the application's typed getter returns %s", c.ctor, c.format, show(vals[i]), show(v)),
+						witness{Shape: w.sh, Request: "PUT /characteristics", Body: trunc(string(body), 600), Ctor: c.ctor, Format: c.format, Expected: show(vals[i]), Got: show(v)})
+				}
+				c.cur, c.known = v, true
+			}
+		}
+		c.takeCallbacks()
+	}
+	if m == nil {
+		return
+	}
+	for _, x := range bys {
+		run.Eval()
+		run.Count("entries_without_a_value_checked", 1)
+		v, p := x.c.appGet()
+		cbs := x.c.takeCallbacks()
+		if p != "" || !sameValue(v, x.before) || len(cbs) > 0 {
+			got := show(v)
+			if p != "" {
+				got = "typed getter panics: " + trunc(p, 200)
+			}
+			run.Violation("put:entry-without-value:value-changed:"+x.c.format, fmt.Sprintf("%s (%s): a PUT entry that only subscribes (no value) changed the application's value from %s to %s (%d remote-update callbacks)", x.c.ctor, x.c.format, show(x.before), got, len(cbs)),
+				witness{Shape: w.sh, Request: "PUT /characteristics", Body: trunc(string(body), 600), Status: m.Status, Response: trunc(string(m.Body), 300), Ctor: x.c.ctor, Format: x.c.format, Expected: show(x.before), Got: got})
+			if p == "" {
+				x.c.cur = v
+			}
+		}
+	}
+}
+
 // abandonAnswer: a third connection of a verified controller asks for the whole database (or for many values) and leaves
 // before or while the answer is written.  What that aborted answer leaves behind in the accessory must not show in the
 // answers the other controllers get (they are compared value by value as always).
@@ -1867,6 +1951,13 @@ func (w *world) runRounds() {
 				return
 			}
 		}
+		// ---- entries WITHOUT a value (a subscription) between entries with a value, in one request
+		for k := 0; k < 3 && len(writable) >= 4; k++ {
+			w.putWithBystanders(rnd.Intn(2), rnd, writable, (round+1)%maxInt(sh.Rounds, 3))
+			if w.dead {
+				return
+			}
+		}
 		// ---- what was written is what the other reads
 		var rw []*cell
 		for _, c := range writable {
@@ -2085,6 +2176,7 @@ func main() {
 	r.Floor("callbacks_checked", int(r.Counter("callbacks_checked")), 300)
 	r.Floor("put_entries_for_non_existing_ids", int(r.Counter("put_entries_for_non_existing_ids")), 3)
 	r.Floor("formats", len(formatsSeen()), 7)
+	r.Floor("entries_without_a_value_checked", int(r.Counter("entries_without_a_value_checked")), 100)
 	r.Floor("answers_abandoned_by_a_third_connection", int(r.Counter("answers_abandoned_by_a_third_connection")), 40)
 	r.Count("float_values_next_to_the_current_value", int(floatNeighbours.Load()))
 	r.Floor("float_values_next_to_the_current_value", int(floatNeighbours.Load()), 30)
